@@ -21,6 +21,22 @@ CHECKS = {
              "violate on the pinned tree and are recorded as known findings; the evidence file reports level `other` while findings are open.",
         note="trusts rustc's trait solver; payload classes are represented by u8 / Cell<u8> / MutexGuard<u8> / Rc<u8> newtypes",
         ref="4 C09"),
+    "C04": dict(
+        cat="other",
+        technique="ADT field-order facts vs trait definitions, rustc layout_of equality of opaque/concrete pairs, call-graph reachability of hash-ordered iteration from the layout-defining macros, header cross-check",
+        text="every generated vtable/group/container/With/Final ADT of the corpus (exact expected lists) and of the repository's own traits is checked "
+             "clause by clause; opaque==concrete is decided by the compiler's layout computation on the full probe matrix; reproducibility is decided "
+             "as absence of order-exposing hash iteration and other nondeterminism in the call-graph cone of cglue_trait/cglue_trait_ext/cglue_trait_group.",
+        note="trusts rustc layouts and the driver's call-graph (conservative: fn items as operands, closures, generic dispatch to local impls); traits outside the corpus grammar not covered",
+        ref="4 C04"),
+    "C16": dict(
+        cat="proof",
+        technique="rustc layout_of / discriminant facts of monomorphic probes compared with the published table, the checked-in C header and cglue-bindgen's hard-coded struct patterns (string constants from MIR)",
+        text="finite table: every runtime wrapper type x (repr, field order, offsets, C kind of each field, fn-pointer arity/ABI, enum tags) decided from "
+             "compiler facts against three published oracles. Decides layout; that driving the fields has the same effect as the Rust method follows "
+             "from the ownership rules of C05/C06/C10/C11, not from this check.",
+        note="trusts rustc layout computation and a small C struct parser; header cross-check covers the types the example header mentions",
+        ref="4 C16"),
 }
 
 NOT_APPLICABLE = {
